@@ -53,6 +53,9 @@ def typed_file(sb):
     return out
 
 
+FLAGS = [["-b", "slurm"], ["-b", "local"], ["-b", "sge"], ["-v", "debug"], ["-v", "warning"], ["--no-color"]]
+
+
 def drive_ops(item):
     rid, scn, variant = item
     sb = cli_defs.sandbox()
@@ -68,8 +71,11 @@ def drive_ops(item):
             args = ["config", "set", "--", op["k"], RAW[op["raw"]]]
         else:
             args = ["config", op["op"], "--", op["k"]]
-        r = sb.gwf(args, cwd=cwd, sub=(variant % 23 == 0))
-        st = dict(op)
+        # any invocation may carry one-off global flags; they are settings of that invocation only and the
+        # specification ignores them (precedence: flag over file, never flag *into* file)
+        flags = rng.choice(FLAGS) if rng.random() < 0.5 else []
+        r = sb.gwf(flags + args, cwd=cwd, sub=(variant % 23 == 0))
+        st = dict(op, flags=" ".join(flags))
         st.update(exit=r.exit_code if r.exc is None else -1, out=(r.stdout or "").rstrip("\n") if op["op"] == "get" else "",
                   file=typed_file(sb), at_root=os.path.exists(sb.path(".gwfconf.json")),
                   stray_file=os.path.exists(os.path.join(sub, ".gwfconf.json")), cwd="nested" if cwd == sub else "root",
